@@ -61,7 +61,28 @@ theorem simpleTTL_eq (low age : Nat) : simpleTTL low age = leftRounded low age :
   unfold simpleTTL leftRounded sec
   split <;> split <;> omega
 
-theorem ecsTTL_eq (low age : Nat) : ecsTTL low age = leftRounded low age := rfl
+/-- Go's `roundDiv` on a non-negative duration and one second is rounding to nearest, half up. -/
+theorem roundDiv_pos (n : Nat) : roundDiv (n : Int) (1000000000 : Int) = (((n + 500000000) / 1000000000 : Nat) : Int) := by
+  unfold roundDiv
+  have h1 : decide ((n : Int) < 0) = false := by simp
+  have h2 : decide ((1000000000 : Int) < 0) = false := by decide
+  rw [h1, h2]
+  simp only [if_true]
+  have h3 : (1000000000 : Int).tdiv 2 = 500000000 := by decide
+  rw [h3, Int.tdiv_eq_ediv_of_nonneg (by omega)]
+  omega
+
+theorem ecsTTL_eq (low age : Nat) : ecsTTL low age = leftRounded low age := by
+  unfold ecsTTL leftRounded sec
+  by_cases h : age < low * 1000000000
+  · have hpos : 0 < (low : Int) * ((1000000000 : Nat) : Int) - (age : Int) := by omega
+    have hcast : (low : Int) * ((1000000000 : Nat) : Int) - (age : Int) = ((low * 1000000000 - age : Nat) : Int) := by omega
+    rw [if_pos hpos, if_pos h, hcast]
+    have := roundDiv_pos (low * 1000000000 - age)
+    have e : ((1000000000 : Nat) : Int) = (1000000000 : Int) := rfl
+    rw [e, this, Int.toNat_natCast]
+  · have hneg : ¬ 0 < (low : Int) * ((1000000000 : Nat) : Int) - (age : Int) := by omega
+    rw [if_neg hneg, if_neg h]
 
 theorem leftRounded_mono (a b age : Nat) (h : a ≤ b) : leftRounded a age ≤ leftRounded b age := by
   unfold leftRounded sec
